@@ -218,10 +218,32 @@ def _forms_shard(arg):
     return acc
 
 
+def _vocab_shard(arg):
+    """every month spelling x every day+month template, every weekday spelling and every part-of-day spelling once per
+    run (deterministic; the sampled part may miss a single spelling)"""
+    pid, seed, months = arg
+    acc = core.Acc(pid)
+    edges = O.edge_dates()
+    for m in months:
+        for k, nm in enumerate(G.MONTH_FORMS[m - 1]):
+            day = 1 + (7 * m + 3 * k + seed) % O.mdays(2021, m)
+            for j, f in enumerate(G.doy_forms(day, m, [nm])):
+                d = edges[(seed * 131 + m * 17 + k * 5 + j) % len(edges)]
+                do(acc, "doy", (day, m), f, dt.datetime.combine(d, O.SWEEP_TIMES[(j + k) % len(O.SWEEP_TIMES)]), "every-spelling")
+    if 1 in months:
+        for i, (fam, par, text) in enumerate(all_items()):
+            if fam in ("wd", "pod", "dom"):
+                d = edges[(seed * 37 + i * 11) % len(edges)]
+                times = pod_times(par) if fam == "pod" else O.SWEEP_TIMES
+                do(acc, fam, par, text, dt.datetime.combine(d, times[i % len(times)]), "every-spelling")
+    return acc
+
+
 def run(ctx):
     acc = core.Acc(ctx.pid)
     items = all_items()
     subs = []
+    acc.merge(core.pmap_acc(ctx.pid, _vocab_shard, [(ctx.pid, ctx.seed, [m]) for m in range(1, 13)]))
     if ctx.thorough:
         dates = list(O.cycle_dates())
         acc.merge(core.pmap_acc(ctx.pid, _cycle_shard, [(ctx.pid, p) for p in core.chunks(dates, 64)]))
